@@ -44,24 +44,64 @@ func checkC18(c *Check) {
 		c.Fail("R2", "emitDSN:params", r.FI.Decl.Pos(), "undecided: unexpected parameters")
 		return
 	}
-	// the RecipientInfo literal
+	// The loop that builds the per-recipient part of the report: in emitDSN itself or in a function of the package it
+	// hands its metadata and failed list to (`failedRcptInfo(meta, failedRcpts)`). Any loop form.
 	var lit *ast.CompositeLit
-	var loop *ast.RangeStmt
-	for _, rs := range rangesIn(r.FI.Decl.Body, func(rs *ast.RangeStmt) bool { return true }) {
-		ast.Inspect(rs.Body, func(n ast.Node) bool {
-			if cl, ok := n.(*ast.CompositeLit); ok && typeIs(info.TypeOf(cl), modPath+"/internal/dsn", "RecipientInfo") {
-				lit, loop = cl, rs
+	var loop *ElemLoop
+	rbld := r       // the function that contains the loop
+	bFailed := failedP // … and its view of the failed list
+	findLoop := func(g *RuleCtx) (*ast.CompositeLit, *ElemLoop) {
+		var fl *ast.CompositeLit
+		var floop *ElemLoop
+		for _, l := range elemLoops(g.Info, g.FI.Decl.Body, func(e ast.Expr) bool {
+			sl, ok := g.Info.TypeOf(e).Underlying().(*types.Slice)
+			return ok && isStringType(sl.Elem())
+		}) {
+			l := l
+			ast.Inspect(l.Body, func(n ast.Node) bool {
+				if cl, ok := n.(*ast.CompositeLit); ok && typeIs(g.Info.TypeOf(cl), modPath+"/internal/dsn", "RecipientInfo") {
+					fl, floop = cl, l
+				}
+				return true
+			})
+		}
+		return fl, floop
+	}
+	lit, loop = findLoop(r)
+	if lit == nil {
+		for _, call := range callsIn(r.FI.Decl.Body) {
+			fn := callee(info, call)
+			if fn == nil || fn.Pkg() != r.FI.Obj.Pkg() || fn == r.FI.Obj {
+				continue
 			}
-			return true
-		})
+			d := c.P.DeclOf(fn)
+			if d == nil || d.Decl.Body == nil {
+				continue
+			}
+			g := c.CtxOf(d)
+			if l2, lp2 := findLoop(g); l2 != nil {
+				// bind: which parameter of the builder receives emitDSN's failed list?
+				pi := 0
+				var bound types.Object
+				for _, f := range d.Decl.Type.Params.List {
+					for _, nm := range f.Names {
+						if pi < len(call.Args) && objOf(info, call.Args[pi]) == failedP {
+							bound = g.Info.Defs[nm]
+						}
+						pi++
+					}
+				}
+				lit, loop, rbld, bFailed = l2, lp2, g, bound
+			}
+		}
 	}
 	if lit == nil {
 		c.Fail("R2", "emitDSN:recipient-info", r.FI.Decl.Pos(), "undecided: no RecipientInfo literal inside a loop")
 		return
 	}
-	// R2: loop ranges over the failed-list parameter
-	c.Hold("R2", "emitDSN:loop-over-failed", loop.Pos(), objOf(info, loop.X) == failedP, "the report's recipient loop does not range over the failed-recipient list it was given (it would list other recipients)")
-	rcptVar := objOf(info, loop.Value)
+	bi := rbld.Info
+	// R2: the loop visits the failed-list parameter, completely
+	c.Hold("R2", "emitDSN:loop-over-failed", loop.Stmt.Pos(), bFailed != nil && objOf(bi, loop.List) == bFailed && loop.Whole, "the report's recipient loop does not range over the failed-recipient list it was given (it would list other recipients)")
 	field := func(name string) ast.Expr {
 		for _, el := range lit.Elts {
 			if kv, ok := el.(*ast.KeyValueExpr); ok {
@@ -72,36 +112,68 @@ func checkC18(c *Check) {
 		}
 		return nil
 	}
-	// status / diagnostic from meta.RcptErrs[rcpt], looked up before rcpt is replaced
-	statusOK := false
-	var errVar types.Object
-	var errLookup *ast.AssignStmt
-	ast.Inspect(loop.Body, func(n ast.Node) bool {
-		if as, ok := n.(*ast.AssignStmt); ok && len(as.Lhs) == 1 && len(as.Rhs) == 1 {
-			if ix, ok := ast.Unparen(as.Rhs[0]).(*ast.IndexExpr); ok && isField(info, ix.X, "QueueMetadata", "RcptErrs") && objOf(info, ix.Index) == rcptVar {
-				errVar = objOf(info, as.Lhs[0])
-				errLookup = as
+	elemVar := loop.ElemObj() // may be reassigned inside the body (rcpt = originalRcpt)
+	litPt, _ := rbld.F.PtOf(lit.Pos())
+	// a lookup `x := <map>[k]` (or `x, ok := …`) whose key is the loop's element as it came from the failed list:
+	// k is an element expression and no reassignment of the element variable can precede the lookup in the iteration
+	keyedByElem := func(mapField, owner string) (res types.Object, okVar types.Object, at Pt, found bool) {
+		for _, pt := range rbld.F.Points() {
+			as, ok := pt.Node().(*ast.AssignStmt)
+			if !ok || len(as.Rhs) != 1 || len(as.Lhs) < 1 || !posIn(loop.Body, as.Pos()) {
+				continue
+			}
+			ix, ok := ast.Unparen(as.Rhs[0]).(*ast.IndexExpr)
+			if !ok || !isField(bi, ix.X, owner, mapField) {
+				continue
+			}
+			if !loop.IsElem(ix.Index) {
+				// a local that – at this point – can only hold the element (`finalRcpt := failed[i]` before it is replaced)
+				kv, isVar := objOf(bi, ix.Index).(*types.Var)
+				if !isVar || kv.IsField() {
+					continue
+				}
+				defs, okD := rbld.ReachingDefs(kv, pt, nil)
+				allElem := okD && len(defs) > 0
+				for _, d := range defs {
+					if !loop.IsElem(d) {
+						allElem = false
+					}
+				}
+				if !allElem {
+					continue
+				}
+			}
+			fresh := true
+			if elemVar != nil {
+				for _, q := range rbld.F.Points() {
+					if q.Node() == nil || !posIn(loop.Body, q.Node().Pos()) {
+						continue
+					}
+					if _, isAs := q.Node().(*ast.AssignStmt); isAs && nodeAssigns(q.Node(), func(l, rhs ast.Expr) bool {
+						return objOf(bi, l) == elemVar && !(rhs != nil && loop.IsElem(rhs)) // (re)loading the element itself is harmless
+					}) {
+						if _, f := rbld.F.Reach(Query{From: []Pt{q}, Target: func(x Pt) bool { return x == pt }, Avoid: rbld.F.IterEnd(loop)}); f {
+							fresh = false
+						}
+					}
+				}
+			}
+			if !fresh {
+				continue
+			}
+			res, at, found = objOf(bi, as.Lhs[0]), pt, true
+			if len(as.Lhs) == 2 {
+				okVar = objOf(bi, as.Lhs[1])
 			}
 		}
-		return true
-	})
-	if errVar != nil {
-		st, dg := field("Status"), field("DiagnosticCode")
-		if st != nil && dg != nil && mentions(info, st, errVar) && objOf(info, dg) == errVar {
-			statusOK = true
-		}
+		return
 	}
-	// the lookup must precede any reassignment of the loop variable
-	if statusOK && errLookup != nil {
-		flow := r.F
-		lk := ptOfNode(flow, errLookup)
-		reassign := flow.Find(func(n ast.Node) bool {
-			return posIn(loop.Body, n.Pos()) && nodeAssigns(n, func(l, _ ast.Expr) bool { return objOf(info, l) == rcptVar })
-		})
-		for _, ra := range reassign {
-			if f, _ := r.Reachable([]Pt{ra}, false, isPt([]Pt{lk}), func(pt Pt) bool { return pt.B.Kind == kindRangeLoop }); f {
-				statusOK = false
-			}
+	// status / diagnostic from meta.RcptErrs[<element>]
+	statusOK := false
+	if errVar, _, _, ok := keyedByElem("RcptErrs", "QueueMetadata"); ok && errVar != nil {
+		st, dg := field("Status"), field("DiagnosticCode")
+		if st != nil && dg != nil && mentions(bi, st, errVar) && objOf(bi, dg) == errVar {
+			statusOK = true
 		}
 	}
 	c.Hold("R2", "emitDSN:status-from-stored-error", lit.Pos(), statusOK, "Status/DiagnosticCode are not taken from the stored last error of the failed recipient (keyed by the effective address)")
@@ -131,55 +203,103 @@ func checkC18(c *Check) {
 		}
 		c.Hold("R2", "tryDelivery:per-attempt-list", td.FI.Decl.Pos(), msg == "", msg)
 	}
-	// R1: FinalRecipient provenance
+	// R1: FinalRecipient provenance. The value reported is a variable whose definitions reaching the literal are, in
+	// the world "the original-recipient map has an entry", only that entry – and in the world "no entry" only the
+	// element of the failed list.
 	fr := field("FinalRecipient")
-	okFR := false
-	if fr != nil && objOf(info, fr) == rcptVar {
-		// rcpt may be reassigned only from OriginalRcpts[rcpt] under a non-empty test
-		var orig types.Object
-		ast.Inspect(loop.Body, func(n ast.Node) bool {
-			if as, ok := n.(*ast.AssignStmt); ok && len(as.Lhs) == 1 && len(as.Rhs) == 1 {
-				if ix, ok := ast.Unparen(as.Rhs[0]).(*ast.IndexExpr); ok && isField(info, ix.X, "MsgMetadata", "OriginalRcpts") && objOf(info, ix.Index) == rcptVar {
-					orig = objOf(info, as.Lhs[0])
-				}
-			}
-			return true
-		})
-		nre, okre := 0, true
-		ast.Inspect(loop.Body, func(n ast.Node) bool {
-			if as, ok := n.(*ast.AssignStmt); ok {
-				for i, l := range as.Lhs {
-					if objOf(info, l) == rcptVar {
-						nre++
-						if i >= len(as.Rhs) || orig == nil || objOf(info, as.Rhs[i]) != orig {
-							okre = false
-						}
+	msgFR := ""
+	origVar, origOK, _, haveOrig := keyedByElem("OriginalRcpts", "MsgMetadata")
+	tv, isVar := objOf(bi, fr).(*types.Var)
+	switch {
+	case fr == nil:
+		msgFR = "the report does not name the recipient"
+	case !haveOrig || origVar == nil:
+		msgFR = "the original-recipient map is not consulted with the failed recipient as the key"
+	case !isVar || tv.IsField():
+		msgFR = "undecided: FinalRecipient is not a local variable (" + exprStr(fr) + ")"
+	default:
+		world := func(present bool) func(b *cfgBlock, i int) bool {
+			return rbld.F.World(func(atom ast.Expr) (bool, bool) {
+				atom = ast.Unparen(atom)
+				if be, ok := atom.(*ast.BinaryExpr); ok && (be.Op == token.NEQ || be.Op == token.EQL) && objOf(bi, be.X) == origVar {
+					if sv, ok := constString(bi, be.Y); ok && sv == "" {
+						return (be.Op == token.NEQ) == present, true
 					}
 				}
-			}
-			return true
-		})
-		if orig != nil && nre == 1 && okre {
-			// the reassignment must be guarded by orig != ""
-			guard := false
-			ast.Inspect(loop.Body, func(n ast.Node) bool {
-				if is, ok := n.(*ast.IfStmt); ok {
-					if be, ok := ast.Unparen(is.Cond).(*ast.BinaryExpr); ok && be.Op == token.NEQ && objOf(info, be.X) == orig {
-						if s, ok := constString(info, be.Y); ok && s == "" {
-							for _, st := range is.Body.List {
-								if nodeAssigns(st, func(l, _ ast.Expr) bool { return objOf(info, l) == rcptVar }) {
-									guard = true
-								}
-							}
-						}
-					}
+				if origOK != nil && objOf(bi, atom) == origOK {
+					return present, true
 				}
-				return true
+				return false, false
 			})
-			okFR = guard
+		}
+		classify := func(present bool) (fromOrig, fromElem, other bool) {
+			w := world(present)
+			isDef := func(q Pt) bool {
+				if q.Node() == nil {
+					return false
+				}
+				if id, ok := q.Node().(*ast.Ident); ok {
+					return rbld.F.RangeVarOf(id) != nil && objOf(bi, id) == tv // key/value of a range head
+				}
+				return assignsObj(bi, q.Node(), tv)
+			}
+			for _, dp := range rbld.F.Points() {
+				n := dp.Node()
+				if n == nil || !isDef(dp) {
+					continue
+				}
+				if _, f := rbld.F.Reach(Query{From: []Pt{dp}, Target: func(q Pt) bool { return q == litPt }, Avoid: func(q Pt) bool { return q != litPt && isDef(q) }, AvoidEdge: w}); !f {
+					continue
+				}
+				if _, f := rbld.F.Reach(Query{From: rbld.F.LoopBodyStart(loop), Inclusive: true, Target: func(q Pt) bool { return q == dp }, Avoid: rbld.F.IterEnd(loop), AvoidEdge: w}); !f {
+					// the loop head's own (re)definition of the value variable is reached from the head, not the body
+					if _, isId := n.(*ast.Ident); !isId {
+						continue
+					}
+				}
+				switch x := n.(type) {
+				case *ast.Ident: // range value variable (re)defined by the loop head
+					if loop.Val != nil && objOf(bi, x) == loop.Val {
+						fromElem = true
+					} else {
+						other = true
+					}
+				case *ast.AssignStmt:
+					for k, l := range x.Lhs {
+						if objOf(bi, l) != tv {
+							continue
+						}
+						if len(x.Rhs) != len(x.Lhs) {
+							other = true
+							continue
+						}
+						switch {
+						case objOf(bi, x.Rhs[k]) == origVar:
+							fromOrig = true
+						case loop.IsElem(x.Rhs[k]):
+							fromElem = true
+						default:
+							other = true
+						}
+					}
+				default:
+					other = true
+				}
+			}
+			return
+		}
+		o1, e1, x1 := classify(true)
+		o2, e2, x2 := classify(false)
+		switch {
+		case x1 || x2:
+			msgFR = "the reported recipient can be something other than the map entry or the failed recipient itself"
+		case !o1 || e1:
+			msgFR = "a recipient that has an entry in the original-recipient map is still reported under the address it was rewritten to"
+		case o2 || !e2:
+			msgFR = "without an entry in the original-recipient map the report does not name the failed recipient itself (an empty or foreign address is reported)"
 		}
 	}
-	c.Hold("R1", "emitDSN:final-recipient", lit.Pos(), okFR, "the reported recipient is not the client's original spelling (OriginalRcpts[rcpt], falling back to rcpt only when absent)")
+	c.Hold("R1", "emitDSN:final-recipient", lit.Pos(), msgFR == "", "the reported recipient is not the client's original spelling (OriginalRcpts[rcpt], falling back to rcpt only when absent): "+msgFR)
 
 	// R3
 	isStart := func(info *types.Info, call *ast.CallExpr) bool {
